@@ -162,7 +162,9 @@ func cmdSinkFaults(f hx.Flags, r *hx.Result) {
 				}
 			}
 		}
-		hx.Catch(func() { app.Stop() })
+		if ret, p := hx.Within(8*time.Second, func() { app.Stop() }); !ret || p != nil {
+			r.Violate("blocked:stop:"+c.Kind, desc, "a further Stop at the end of the history returned=%v panic=%v", ret, p)
+		}
 		sigs[sig] = true
 		if n == 7 {
 			r.Sample(c)
